@@ -45,13 +45,42 @@ def flags_intact(fs):
 
 TX_MODEL = C.default_tx(2, 2)
 _TX = {}
+_TX_BYTES = {}
 
 
 def spend_tx(mutable=False):
     t = _TX.get(mutable)
     if t is None:
         t = _TX[mutable] = C.lib_tx(TX_MODEL, mutable=mutable)
+        _TX_BYTES[mutable] = t.serialize()
     return t
+
+
+def default_spend_tx(script):
+    """the spending transaction used when a case does not bring its own: ONE immutable and ONE mutable object with the same
+    field values for the whole process, chosen by the parity of the script length (so both kinds see every family)"""
+    return spend_tx(mutable=bool(len(script) & 1))
+
+
+def spend_tx_intact():
+    return all(_TX[k].serialize() == _TX_BYTES[k] for k in _TX)
+
+
+_SCRIPTS = {}
+
+
+def cscript(b):
+    """ONE CScript object per byte string for the whole process (a caller that keeps the scriptPubKey object of an output
+    and evaluates it against many scriptSigs): an evaluation that stops half-way, or a predicate that looks at the first
+    operations only, must not change what later evaluations of the same object do"""
+    from bitcoin.core.script import CScript
+    b = bytes(b)
+    o = _SCRIPTS.get(b)
+    if o is None:
+        if len(_SCRIPTS) > 50000:
+            _SCRIPTS.clear()
+        o = _SCRIPTS[b] = CScript(b)
+    return o
 
 
 @functools.lru_cache(maxsize=200000)
@@ -78,21 +107,28 @@ def make_checksig(txmodel=TX_MODEL, idx=0):
     return cs
 
 
+def _after_call(r, fs, tx):
+    if r[0] != 'EXC':
+        if not flags_intact(fs):
+            return ('EXC', 'the caller\'s flags set was modified')
+        if tx is None and not spend_tx_intact():
+            return ('EXC', 'the caller\'s transaction was modified')
+    return r
+
+
 def run_lib_eval(script, init, fs, tx=None, idx=0):
     """-> ('fail', class name) | ('ok', stack tuple) | ('EXC', description)"""
-    from bitcoin.core.script import CScript
     from bitcoin.core import ValidationError
     from bitcoin.core.scripteval import EvalScript
     st = list(init)
     try:
-        EvalScript(st, CScript(script), tx if tx is not None else spend_tx(), idx, flags=lib_flags(fs))
+        EvalScript(st, cscript(script), tx if tx is not None else default_spend_tx(script), idx, flags=lib_flags(fs))
+        r = ('ok', tuple(bytes(x) for x in st))
     except ValidationError as e:
-        return ('fail', type(e).__name__)
+        r = ('fail', type(e).__name__)
     except Exception as e:  # noqa
-        return ('EXC', '%s: %s' % (type(e).__name__, str(e)[:80]))
-    if not flags_intact(fs):
-        return ('EXC', 'the caller\'s flags set was modified')
-    return ('ok', tuple(bytes(x) for x in st))
+        r = ('EXC', '%s: %s' % (type(e).__name__, str(e)[:80]))
+    return _after_call(r, fs, tx)
 
 
 def run_ref_eval(script, init, fs, checksig=None):
@@ -106,17 +142,15 @@ def run_ref_eval(script, init, fs, checksig=None):
 
 def run_lib_verify(sig, pk, fs, tx=None, idx=0):
     from bitcoin.core import ValidationError
-    from bitcoin.core.script import CScript
     from bitcoin.core.scripteval import VerifyScript
     try:
-        VerifyScript(CScript(sig), CScript(pk), tx if tx is not None else spend_tx(), idx, flags=lib_flags(fs))
+        VerifyScript(cscript(sig), cscript(pk), tx if tx is not None else default_spend_tx(pk), idx, flags=lib_flags(fs))
+        r = ('ok',)
     except ValidationError as e:
-        return ('fail', type(e).__name__)
+        r = ('fail', type(e).__name__)
     except Exception as e:  # noqa
-        return ('EXC', '%s: %s' % (type(e).__name__, str(e)[:80]))
-    if not flags_intact(fs):
-        return ('EXC', 'the caller\'s flags set was modified')
-    return ('ok',)
+        r = ('EXC', '%s: %s' % (type(e).__name__, str(e)[:80]))
+    return _after_call(r, fs, tx)
 
 
 def run_ref_verify(sig, pk, fs, checksig=None):
@@ -136,7 +170,7 @@ def lib_state_after(prefix, init, fs, tx=None, idx=0):
     st = list(init)
     probe = bytes(prefix) + b'\x65'
     try:
-        EvalScript(st, CScript(probe), tx if tx is not None else spend_tx(), idx, flags=lib_flags(fs))
+        EvalScript(st, cscript(probe), tx if tx is not None else default_spend_tx(probe), idx, flags=lib_flags(fs))
     except EvalScriptError as e:
         if e.sop == 0x65 and e.sop_pc == len(prefix):
             return ('state', tuple(bytes(x) for x in e.stack), tuple(bytes(x) for x in e.altstack), tuple(bool(b) for b in e.vfExec),
